@@ -457,7 +457,8 @@ pub fn run(ctx: &Ctx) -> CheckResult {
     // 2^32 + 2048 calls on one instance (a tick / call counter in a 32-bit type wraps there; a ring slot
     // derived from it jumps unless the period divides 2^32): every one of the last 4000 steps - before, at
     // and after the wrap - against a fresh instance fed the last window
-    if !res.out.failed() {
+    // (thorough tier: about 30 s per configuration here, several minutes on a slower machine)
+    if th && !res.out.failed() {
         let mut hz: Vec<Cfg> = vec![Cfg::p1(Kind::Max, 10), Cfg::p1(Kind::Min, 14)];
         if th {
             hz.extend([Cfg::p1(Kind::Sma, 10), Cfg::p1(Kind::Roc, 10), Cfg::p1(Kind::Wma, 9), Cfg::p1(Kind::Sd, 10), Cfg::p1(Kind::FastStoch, 14), Cfg::p1(Kind::Mfi, 14)]);
